@@ -103,13 +103,13 @@ deriving DecidableEq, Repr
 
 /-- body of `while key is not None:` up to (not including) the trailing `next` -/
 def keyStep (ps : List Param) (s : St) (key : Name) (argument : Arg) : St :=
-  let s := { s with keysOnly := true }
-  if !inParamDict ps key then
-    { s with nonMatching := dictSet s.nonMatching key argument }          -- except KeyError
+  -- keys_only = True (first statement of the body, written into every branch)
+  if !inParamDict ps key then                                             -- except KeyError
+    { s with keysOnly := true, nonMatching := dictSet s.nonMatching key argument }
   else if (s.keysUsed.lookup key).isSome then
-    { s with hadMulti := true, issues := s.issues ++ [Issue.multipleValues key] }
+    { s with keysOnly := true, hadMulti := true, issues := s.issues ++ [Issue.multipleValues key] }
   else
-    { s with keysUsed := (key, .arg argument) :: s.keysUsed }
+    { s with keysOnly := true, keysUsed := (key, .arg argument) :: s.keysUsed }
 
 /-- `while key is not None: ...; key, argument = next(var_arg_iterator, (None, None))`.
 `cur` is the current `(key, argument)`; `none` stands for `(None, None)`.  Returns the final
@@ -138,14 +138,13 @@ def finish (cfg : Cfg) (p : Param) (b : Bound) (s : St) : St :=
     result := s.result ++ [(p.name, b)]
     keysUsed := if cfg.skipUnknown && b == .unknown then s.keysUsed else (p.name, b) :: s.keysUsed }
 
-/-- one iteration of `for param in funcdef.get_params():` -/
-def stepJ (cfg : Cfg) (ps : List Param) (p : Param) (it : It) (s : St) : It × St :=
-  -- key, argument = next(var_arg_iterator, (None, None))
-  let (cur, it) : Option (Option Name × Arg) × It :=
-    match it with
-    | [] => (none, [])
-    | x :: r => (some x, r)
-  let (argument, it, s) := whileKeys ps cur it s
+/-- `next(var_arg_iterator, (None, None))`: `none` stands for `(None, None)` -/
+def pop : It → Option (Option Name × Arg) × It
+  | [] => (none, [])
+  | x :: r => (some x, r)
+
+/-- the body of the `for param` loop after the `while key is not None` loop -/
+def bodyJ (cfg : Cfg) (p : Param) (argument : Option Arg) (it : It) (s : St) : It × St :=
   match s.keysUsed.lookup p.name with
   | some b => (it, { s with result := s.result ++ [(p.name, b)] })       -- try: ...; continue
   | none =>
@@ -170,6 +169,14 @@ def stepJ (cfg : Cfg) (ps : List Param) (p : Param) (it : It) (s : St) : It × S
           (it, finish cfg p .unknown s)
         else (it, finish cfg p .default s)
       | some a => (it, finish cfg p (.arg a) s)
+
+/-- one iteration of `for param in funcdef.get_params():` -/
+def stepJ (cfg : Cfg) (ps : List Param) (p : Param) (it : It) (s : St) : It × St :=
+  -- key, argument = next(var_arg_iterator, (None, None))
+  let (cur, it) := pop it
+  -- while key is not None: ...
+  let (argument, it, s) := whileKeys ps cur it s
+  bodyJ cfg p argument it s
 
 /-- the `for param in funcdef.get_params()` loop -/
 def loopJ (cfg : Cfg) (all : List Param) : List Param → It → St → It × St
